@@ -901,13 +901,11 @@ class TermCanvas(Canvas):
 
     def tab(self, tabstop: int = 8) -> None:
         """
-        Moves cursor to the next 'tabstop' filling everything in between
-        with spaces.
+        Moves cursor to the next 'tabstop'.  Like on a VT100 the cells passed over keep their contents.
         """
         x, y = self.term_cursor
 
         while x < self.width - 1:
-            self.set_char(b" ")
             x += 1
 
             if self.is_tabstop(x):
